@@ -86,6 +86,11 @@ def build_corpus(tier, rng):
         Variant("A", "unit", [], [msg("short"), det("")]), Variant("B", "tuple", [Field("u8")], [det("")]), Variant("C", "unit", [], [msg("")]),
         Variant("D", "named", [Field("u8", "x")], [msg(""), det("")]), Variant("F", "unit", [], [msg(""), det("long"), doc("")]),
         Variant("G", "unit", [], [doc(""), doc(""), det(" ")])])))
+    # the user's enum has INHERENT methods called like the trait's: the trait methods still answer from the attributes
+    nk = Item("E", [Variant("Plain", "unit"), Variant("Short", "unit", [], [msg("short")]), Variant("Both", "tuple", [Field("u8")], [msg("m"), det("d"), doc(" docs")]),
+                    Variant("Off", "unit", [], [DISABLED, msg("never")]), Variant("OnlyDetail", "named", [Field("u8", "f")], [det("only")])])
+    nk.namesakes = True
+    items.append(("inherent-namesakes", nk))
     items.append(("case-spellings", Item("E", [Variant("A", "unit", [], [ser("mb"), tos("MB"), aci(False)]), Variant("B", "tuple", [Field("u8")], [ser("kb"), ser("Kb"), ser("KB"), aci(True, explicit=False)]),
                                                Variant("C", "unit", [], [DISABLED, ser("x"), ser("X"), det("never"), msg("never")])])))
     G.resolve_names(ID, [it for _, it in items])
